@@ -439,6 +439,8 @@ func visitInstr(fr *frame, instr ssa.Instruction) continuation {
 		switch x := x.(type) {
 		case array:
 			fr.env[instr] = x[asInt64(idx)]
+		case symString:
+			fr.env[instr] = x[asInt64(idx)]
 		case string:
 			fr.env[instr] = x[asInt64(idx)]
 		default:
